@@ -65,7 +65,7 @@ func init() {
 // c10Head draws the run's configuration in a fixed order so planned prefixes address it.
 type c10Head struct {
 	cfg, prerot, mode, k, kind, pair, k2, kind2, rate int
-	overwrite                                       bool
+	overwrite                                         bool
 }
 
 func drawC10Head(r *core.Run) c10Head {
